@@ -4,6 +4,8 @@ package c08
 import (
 	"bytes"
 	"go/format"
+	"go/scanner"
+	"go/token"
 	"regexp"
 	"strings"
 
@@ -19,8 +21,58 @@ func init() { core.Register("C08", Run) }
 
 var rePos = regexp.MustCompile(`Line: \d+, Col: \d+`)
 
-// program normalises generated code: error positions masked, gofmt layout.
+// program normalises generated code: error positions masked, then the Go token stream (white space, line breaks,
+// automatically inserted semicolons and a trailing comma before a closing bracket do not count: "gofmt-level layout
+// of the embedded Go code"), one statement-ish chunk per line so that differences can be shown.
 func program(code string) string {
+	code = rePos.ReplaceAllString(code, "Line: 0, Col: 0")
+	fset := token.NewFileSet()
+	file := fset.AddFile("", fset.Base(), len(code))
+	var sc scanner.Scanner
+	sc.Init(file, []byte(code), nil, 0)
+	type tk struct {
+		t   token.Token
+		lit string
+	}
+	var toks []tk
+	for {
+		_, t, lit := sc.Scan()
+		if t == token.EOF {
+			break
+		}
+		if t == token.SEMICOLON && lit == "\n" {
+			toks = append(toks, tk{t, "\n"})
+			continue
+		}
+		if lit == "" {
+			lit = t.String()
+		}
+		toks = append(toks, tk{t, lit})
+	}
+	var sb strings.Builder
+	for i, k := range toks {
+		if k.t == token.SEMICOLON && k.lit == "\n" {
+			sb.WriteString("\n")
+			continue
+		}
+		if k.t == token.COMMA && i+1 < len(toks) {
+			// trailing comma (possibly followed by an inserted line break) before a closing bracket
+			j := i + 1
+			for j < len(toks) && toks[j].t == token.SEMICOLON && toks[j].lit == "\n" {
+				j++
+			}
+			if j < len(toks) && (toks[j].t == token.RBRACE || toks[j].t == token.RPAREN || toks[j].t == token.RBRACK) {
+				continue
+			}
+		}
+		sb.WriteString(k.lit)
+		sb.WriteString(" ")
+	}
+	return strings.Join(strings.Fields(sb.String()), " ")
+}
+
+// progText is the gofmt-ed text with error positions masked (used to classify and to show differences).
+func progText(code string) string {
 	code = rePos.ReplaceAllString(code, "Line: 0, Col: 0")
 	if b, err := format.Source([]byte(code)); err == nil {
 		return string(b)
@@ -126,11 +178,12 @@ func Run(c *core.Ctx) {
 		}
 		same = false
 		_, lits1, _ := generate(cs.Src)
-		shape := diffShape(cs, lits1, lits2, p1, p2)
+		t1, t2 := progText(cs.Code), progText(code2)
+		shape := diffShape(cs, lits1, lits2, t1, t2)
 		shapeCount[shape]++
 		c.Hist("program differs: " + shape)
 		if shapeCount[shape] <= 2 {
-			a, b := firstDiff(p1, p2)
+			a, b := firstDiff(t1, t2)
 			c.Fail("property", "program generated from the formatted file = program generated from the original", shape,
 				map[string]any{"file": cs.Name, "source": cs.Src, "formatted": cs.P1, "original_program_line": a, "formatted_program_line": b},
 				"formatting changed the generated program (beyond error positions and gofmt layout)")
